@@ -364,37 +364,23 @@ def remove_qubit(tableau, qubit_position, measurement_determinism="probabilistic
     tableau, outcome, probabilistic = z_measurement_gate(
         tableau, qubit_position, measurement_determinism
     )
-    new_table = np.delete(
-        tableau.table, [qubit_position, qubit_position + n_qubits], axis=1
-    )
-
     if probabilistic:
-        new_table = np.delete(
-            new_table, [probabilistic, probabilistic - n_qubits], axis=0
-        )
-        new_phase = np.delete(tableau.phase, [probabilistic, probabilistic - n_qubits])
-        new_iphase = np.delete(
-            tableau.iphase, [probabilistic, probabilistic - n_qubits]
-        )
+        # the measurement left (-1)^outcome Z_q in stabilizer row `probabilistic`
+        omit_index = probabilistic - n_qubits
     else:
+        # Z_q is (up to sign) the product of the stabilizers whose destabilizers have X on the qubit
         non_zero = [
             i for i in range(n_qubits) if tableau.destabilizer_x[i, qubit_position] != 0
         ]
         assert len(non_zero) > 0
-        if len(non_zero) == 1:
-            new_table = np.delete(
-                new_table, [non_zero[0], non_zero[0] + n_qubits], axis=0
-            )
-            new_phase = np.delete(tableau.phase, [non_zero[0], non_zero[0] + n_qubits])
-            new_iphase = np.delete(
-                tableau.iphase, [non_zero[0], non_zero[0] + n_qubits]
-            )
-        else:
-            omit_index = non_zero[0]
-            # remove first element from the non_zero list
-            non_zero = non_zero[1:]
-            # update tableau
-            for row in non_zero:
+        omit_index = non_zero[0]
+        for row in non_zero[1:]:
+            # multiply destabilizer `row` by destabilizer `omit_index` and, to keep the pairing,
+            # stabilizer `omit_index` by stabilizer `row`
+            for row_to_add, target_row in [
+                (omit_index, row),
+                (row + n_qubits, omit_index + n_qubits),
+            ]:
                 (
                     tableau.table_x,
                     tableau.table_z,
@@ -405,18 +391,22 @@ def remove_qubit(tableau, qubit_position, measurement_determinism="probabilistic
                     tableau.table_z,
                     tableau.phase,
                     tableau.iphase,
-                    omit_index,
-                    row,
+                    row_to_add,
+                    target_row,
                 )
-            # remove columns and then rows
-            new_table = np.delete(
-                tableau.table, [qubit_position, qubit_position + n_qubits], axis=1
-            )
-            new_table = np.delete(
-                new_table, [omit_index, omit_index + n_qubits], axis=0
-            )
-            new_phase = np.delete(tableau.phase, [omit_index, omit_index + n_qubits])
-            new_iphase = np.delete(tableau.iphase, [omit_index, omit_index + n_qubits])
+        # now stabilizer row omit_index + n_qubits is (-1)^outcome Z_q
+
+    # the removed qubit is in the Z eigenstate `outcome`: replace Z_q by its eigenvalue in the other generators
+    z_column = tableau.table[:, qubit_position + n_qubits]
+    tableau.phase = tableau.phase ^ (int(outcome) * z_column)
+
+    # remove columns and then rows
+    new_table = np.delete(
+        tableau.table, [qubit_position, qubit_position + n_qubits], axis=1
+    )
+    new_table = np.delete(new_table, [omit_index, omit_index + n_qubits], axis=0)
+    new_phase = np.delete(tableau.phase, [omit_index, omit_index + n_qubits])
+    new_iphase = np.delete(tableau.iphase, [omit_index, omit_index + n_qubits])
     tableau.shrink(new_table, new_phase, new_iphase)
     return tableau
 
